@@ -353,6 +353,7 @@ def check_cases(ctx, cases, results):
         ctx.log(log[-2000:])
     nontrivial = set()
     kinds = {}
+    skipped_hyp = [0]
     for (c, k, rec, before), v in zip(index, vals):
         ctx.cov["evaluations"] += 1
         op, out, after = rec["op"], rec["out"], rec["after"]
@@ -375,6 +376,11 @@ def check_cases(ctx, cases, results):
             continue
         _, mdisk, mobs = mres
         mdisk = {p: list(t) for p, t in mdisk}
+        if name == "move" and not hyp:
+            # target names collide or exist already: which content survives depends on the order in which the
+            # worker threads treat the files -- outside the theorem's hypotheses, nothing is compared
+            skipped_hyp[0] += 1
+            continue
         if mobs == "TUnspecified":
             if after != before:
                 ctx.fail("failing-input", f"{name} changed the tree; {where}", case=c, impl=sorted(after.items()),
@@ -423,16 +429,17 @@ def check_cases(ctx, cases, results):
             ctx.sample({"op": {k_: v_ for k_, v_ in op.items() if k_ not in ("cfg", "target_cfg")},
                         "source": op["cfg"]["path"], "target": op.get("target_cfg", {}).get("path"),
                         "before": sorted(before.items())[:6], "after": sorted(after.items())[:6]})
+    kinds["moves_outside_hypotheses_not_compared"] = skipped_hyp[0]
     return len(nontrivial), kinds
 
 
 def run(ctx):
     ctx.prove("Props/C11.v")
-    n = ctx.n(60, 900)
+    n = ctx.n(60, 600)
     cases = [gen_case(ctx.rng, k, ctx.tier) for k in range(n)]
     nnc = 0
     if ctx.thorough:
-        nnc = 60
+        nnc = 40
         cases += [gen_case(ctx.rng, n + k, ctx.tier, force_nc=True) for k in range(nnc)]
     ctx.log(f"{len(cases)} histories, {sum(len(c['ops']) for c in cases)} operations")
     results = run_children(ctx, cases, f"h{os.getpid()}", chunk=6 if not ctx.thorough else 16, jobs=12)
